@@ -12,7 +12,7 @@ A(k, fn)   == <<k, "arg", fn, "">>
 N(k, f, g) == <<k, "nest", f, g>>
 Plain      == <<"", "plain", "", "">>
 
-AllKinds == {"*", "*::field", "*::tag", "^a", "a|b", ".*", "zz", "host", "^[abc]$"}
+AllKinds == {"*", "*::field", "*::tag", "^a", "a|b", ".*", "zz", "host", "^[abc]$", "^(c|a)$", "^(b|a|b)$"}
 FnStrBool == {"count", "first", "last", "distinct", "elapsed", "mode", "sample"}   \* + string + boolean
 FnBool    == {"min", "max"}                                                        \* + boolean
 FnNoUns   == {"holt_winters", "holt_winters_with_fit"}                             \* - unsigned
@@ -32,7 +32,7 @@ AllSrcs == {<<"m1">>, <<"m2">>, <<"m1", "m2">>, <<"m2", "m1">>, <<"m3">>} \cup {
            \cup {<<"m1", "s_calls">>, <<"s_ab", "m2">>, <<"s_star", "s_alias2">>, <<"m2", "s2_star_calls">>}
            \cup DbSrcs \cup SubTypeSrcs
 AllConds == {"none", "b>1", "host", "and", "typed"}
-AllSchemas == (1..18) \cup (100..135) \cup (200..219) \cup (300..303) \cup {400, 401}
+AllSchemas == (1..20) \cup (100..135) \cup (200..219) \cup (300..303) \cup {400, 401}
 AllUnspec == {<<"*", "arg2", "", "">>, <<"a|b", "arg2", "", "">>, <<"*", "bin", "", "">>, <<"a|b", "bin", "", "">>,
               <<"*", "binw", "", "">>, <<"*", "paren", "", "">>, <<"*::tag", "arg", "mean", "">>,
               <<"*::tag", "arg", "count", "">>, <<"*::tag", "nest", "max", "mean">>}
@@ -44,7 +44,7 @@ NoCond == {"none"}
 OnlyM1 == {<<"m1">>}
 
 \* ------------------------------------------------------------------ quick (about 3 000 pairs)
-Q_positions_Cores == {F(k) : k \in AllKinds \ {"^[abc]$"}}
+Q_positions_Cores == {F(k) : k \in AllKinds \ {"^[abc]$", "^(b|a|b)$"}}
                      \cup {A(k, fn) : k \in {"*", "*::field", "a|b", ".*"}, fn \in {"count", "min", "holt_winters", "mean"}}
                      \cup {N(k, n[1], n[2]) : k \in {"*", "a|b"}, n \in {<<"max", "mean">>, <<"mean", "count">>}}
                      \cup {Plain}
@@ -64,13 +64,13 @@ Q_sources_Srcs == {<<"m1", "m2">>, <<"s_ab">>, <<"s_star">>, <<"s_calls">>, <<"s
 Q_sources_Conds == NoCond
 Q_sources_Schemas == {4, 6, 7, 9, 13}
 
-Q_extras_Cores == {F("*"), A("*", "mean"), F("a|b"), Plain}
+Q_extras_Cores == {F("*"), A("*", "mean"), F("a|b"), F("*::tag"), F("^(c|a)$"), F("^(b|a|b)$"), Plain}
 Q_extras_GroupBys == {<<>>, <<"*">>}
 Q_extras_Befores == {"", "a", "b::float", "mean(b)", "a+b"}
 Q_extras_Afters == {"", "c::field", "host", "max(c) AS mc"}
 Q_extras_Srcs == OnlyM1
 Q_extras_Conds == {"none", "b>1"}
-Q_extras_Schemas == {4, 8}
+Q_extras_Schemas == {4, 8, 19, 20}
 
 Q_typepairs_Cores == {F("*"), Plain, A("*", "min"), A("*", "holt_winters")}
 Q_typepairs_GroupBys == {<<>>}
@@ -198,14 +198,14 @@ T_sources_Srcs == AllSrcs
 T_sources_Conds == NoCond
 T_sources_Schemas == {3, 4, 6, 7, 9, 11, 12, 13, 15}
 
-T_extras_Cores == {F("*"), A("*", "mean"), F("a|b"), Plain}
+T_extras_Cores == {F("*"), A("*", "mean"), F("a|b"), F("*::tag"), F(".*"), F("^(c|a)$"), F("^(b|a|b)$"), A("^(c|a)$", "max"), Plain}
 T_extras_GroupBys == {<<>>, <<"*">>}
 T_extras_Befores == AllExtras \ {"(c)*2", "a,b::integer"}
 T_extras_Afters == {"", "c", "b::float", "host::tag", "c::field", "host::field", "x::field", "mean(b)", "max(c) AS mc",
                     "(c)*2", "a,b::integer"}
 T_extras_Srcs == OnlyM1
 T_extras_Conds == {"none", "b>1", "and"}
-T_extras_Schemas == {4, 8}
+T_extras_Schemas == {4, 8, 19, 20, 13}
 
 T_typepairs_Cores == {F("*"), F("^a"), Plain, A("*", "min"), A("*", "holt_winters"), A("*", "count"), A("*", "mean")}
 T_typepairs_GroupBys == {<<>>, <<"*">>}
